@@ -27,12 +27,23 @@ QueriesFor(d) == QueriesOf(d, FullQueries)
 \* a query: abstract time q, its concrete rendering (sec, nsec) and the time zone (seconds east of UTC) the
 \* time.Time value handed to XxxStateAt is expressed in (same instant)
 Zone(k) == CASE k % 3 = 0 -> 0 [] k % 3 = 1 -> 19800 [] OTHER -> 0 - 28800
-QueryRec(r, q, side) == [q |-> q, sec |-> QSec(r, q, side), nsec |-> Nsec(r.kind, q), tz |-> Zone(q + Seed)]
+QueryRec(r, q, side) == [op |-> "at", q |-> q, sec |-> QSec(r, q, side), nsec |-> Nsec(r.kind, q), tz |-> Zone(q + Seed)]
 Sides(r, q) == IF \E p \in r.pauses : 2 * p + 1 = q THEN {0, 1} ELSE {0}     \* inside a pause: just after p, just before p+1
 \* sub-second query grid (FineTimes): every odd query of the changeset kind (its state files carry nanoseconds),
 \* and of the other kinds in the smallest directories
 Fine(d, r, q) == q % 2 = 1 /\ (r.kind = "changesets" \/ d.cur <= 6)
-FineRecs(d, r, q) == IF Fine(d, r, q) THEN {[q |-> q, sec |-> x[1], nsec |-> x[2], tz |-> Zone(x[2] + q)] : x \in FineTimes(r, q)} ELSE {}
+FineRecs(d, r, q) == IF Fine(d, r, q) THEN {[op |-> "at", q |-> q, sec |-> x[1], nsec |-> x[2], tz |-> Zone(x[2] + q)] : x \in FineTimes(r, q)} ELSE {}
+\* One record is one client history: the calls are made in this order, in one process, against one server.
+\* After every query time once (BaseCalls) the history repeats calls it has already made (Repeats): the current
+\* state (op "current" = CurrentXxxState; abstractly the lookup for a time after all states, q = 2*cur+1), the
+\* lookup after all states, the first and a middle query of the history - an answer must not depend on what was
+\* asked before (Judge clause HistoryIndependent).
+BaseCalls(d, r, qs) == SetToSeq(UNION {{QueryRec(r, q, side) : side \in Sides(r, q)} \cup FineRecs(d, r, q) : q \in qs})
+Repeats(d, r, qs) == LET qa == 2 * d.cur + 1   sq == SetToSeq(qs)
+                         cur == [QueryRec(r, qa, 0) EXCEPT !.op = "current"]
+                     IN  IF qa \notin qs THEN Assert(FALSE, "the query after all states is always generated")
+                         ELSE <<cur, QueryRec(r, qa, 0), QueryRec(r, sq[(Len(sq) + 1) \div 2], 0), cur,
+                                QueryRec(r, qa, 1), QueryRec(r, sq[1], 0)>>
 GenRecWith(d, r, qs) == LET c == CaseOf(d, 0, NoDevs) IN
   [kind |-> r.kind, skew |-> r.skew, style |-> r.style, prefix |-> r.prefix,
    unit |-> r.unit, pauses |-> SetToSeq(r.pauses), pauselen |-> r.pauselen,
@@ -40,7 +51,7 @@ GenRecWith(d, r, qs) == LET c == CaseOf(d, 0, NoDevs) IN
    bound |-> c.bound, cap |-> Cap(c),
    current |-> CurrentFile(r, c),
    files |-> [i \in 1 .. Cardinality(d.present) |-> FileOf(r, SetToSeq(d.present)[i])],
-   queries |-> SetToSeq(UNION {{QueryRec(r, q, side) : side \in Sides(r, q)} \cup FineRecs(d, r, q) : q \in qs})]
+   queries |-> BaseCalls(d, r, qs) \o Repeats(d, r, qs)]
 GenRec(d, kind) == GenRecWith(d, Render(d, kind), QueriesFor(d))
 PauseRec(pl, kind) == GenRecWith(pl.d, PauseRender(pl.d, kind, pl.pauses), pl.qs)
 \* one kind per plan when kinds are rotated: the pause places of one size then cover several kinds
